@@ -73,8 +73,8 @@ def _wires(n, k):
 def enc_gate(draw, n, m, mode, pool=None):
     """mode 'mark': parameter is exactly x_j; 'lin': affine form; 'int': integer-frequency form (2*pi periodic)."""
     names = sorted(k for k, nw in ENC.items() if nw <= n) if pool is None else [k for k in pool if ENC[k] <= n]
-    if mode == "lin":  # FermionicSWAP encoders crash qnode_spectrum (known finding): keep them a small share
-        names = [k for k in names if k != "FermionicSWAP"] * 3 + [k for k in names if k == "FermionicSWAP"]
+    # (FermionicSWAP used to be down-weighted in "lin" mode while its complex-parameter decomposition crashed qnode_spectrum;
+    # repaired in the repository, so every encoder class has the same share again)
     name = draw(st.sampled_from(names))
     nw = ENC[name] or draw(st.integers(1, n))
     op = {"g": name, "w": draw(_wires(n, nw))}
@@ -436,11 +436,14 @@ def _check_sound(spec, out, j, reported, where, sig, feats):
     return len(true), len([r for r in rep if r >= -1e-12])
 
 
-def _spectrum_call(fn, args, spec):
-    """qnode_spectrum on documented-valid input must not raise; bucket crashes by the encoder classes involved."""
+def _spectrum_call(fn, args, spec, documented=None):
+    """qnode_spectrum on documented-valid input must not raise; bucket crashes by the encoder classes involved.
+    `documented`: text of a documented ValueError that the caller handles itself (passed through unchanged)."""
     try:
         return fn(*args)
     except Exception as e:  # noqa: BLE001
+        if documented and isinstance(e, ValueError) and documented in str(e):
+            raise
         enc = sorted({op["g"] for op in spec["ops"] if any("t" in p for p in op.get("p", []))})
         raise Viol("qnode_spectrum-crash", f"{type(e).__name__}: {str(e)[:300]}; encoders={enc} iface={spec['iface']} ops={spec['ops']}",
                    sig="crash:" + type(e).__name__ + (":FermionicSWAP" if "FermionicSWAP" in enc else ""),
@@ -535,8 +538,10 @@ def check_qnode(spec, qp):
         a0 = next(i for i, a in enumerate(lay) if (j0 in a["idx"] if isinstance(a["idx"], list) else j0 == a["idx"]))
         if a0 not in spec["pick"]:
             raise Reject("non-linear input not among the selected arguments")
+        # any other exception is a crash of qnode_spectrum and is bucketed like the crashes of the linear cases (it used to
+        # propagate as a feature-less `unexpected-exception`, which hid the encoder class from the known-findings matching)
         try:
-            fn(*args)
+            _spectrum_call(fn, args, spec, documented="only linear classical preprocessing")
         except ValueError as e:
             if "only linear classical preprocessing" in str(e):
                 return Result(True, labels=["qnode", "nonlinear-rejected:" + spec["nonlin"]])
